@@ -59,8 +59,8 @@ def _match(name_list, t):
     return False
 
 
-def canon_place(B, pl, depth=0):
-    base = _canon_local(B, pl['l'], depth)
+def canon_place(B, pl, depth=0, at=None):
+    base = _canon_local(B, pl['l'], depth, at)
     projs = []
     for e in pl.get('p') or []:
         if e == '*':
@@ -70,7 +70,7 @@ def canon_place(B, pl, depth=0):
         elif isinstance(e, dict) and 'dc' in e:
             projs.append('as:' + str(e.get('n', e['dc'])))
         elif isinstance(e, dict) and 'idx' in e:
-            projs.append(('idx', _canon_local(B, e['idx'], depth + 1)))
+            projs.append(('idx', _canon_local(B, e['idx'], depth + 1, at)))
         elif isinstance(e, dict) and 'cidx' in e:
             projs.append(('cidx', e['cidx'], e['from_end']))
         else:
@@ -139,54 +139,57 @@ def canon_place(B, pl, depth=0):
     return res
 
 
-def _canon_local(B, l, depth):
+def _canon_local(B, l, depth, at=None):
     if depth > 40:
         return ('local', l)
     if 1 <= l <= B.b['argc'] and not B.defs().get(l):
         return ('arg', l)
     d = B.single_def(l)
+    if d is None and at is not None:
+        d = B.reaching_def(l, at)        # several definitions, one of which reaches the place the value is read at
     if d is None:
         return ('local', l)
     kind, bb, idx, node = d
+    at2 = (bb, idx)
     if kind == 's':
         rv = node['rv']
         k = rv['k']
         if k == 'use':
-            return canon(B, rv['op'], depth + 1)
+            return canon(B, rv['op'], depth + 1, at2)
         if k in ('ref', 'rawptr'):
-            return canon_place(B, rv['pl'], depth + 1)
+            return canon_place(B, rv['pl'], depth + 1, at2)
         if k == 'cast':
             fr, to = ty_range(rv['from']), ty_range(rv['to'])
-            inner = canon(B, rv['op'], depth + 1)
+            inner = canon(B, rv['op'], depth + 1, at2)
             if fr and to and fr[0] >= to[0] and fr[1] <= to[1]:
                 return inner          # widening cast preserves the value
             return ('cast', rv['to'], inner)
         if k == 'bin':
-            return ('bin', rv['op'], canon(B, rv['a'], depth + 1), canon(B, rv['b'], depth + 1))
+            return ('bin', rv['op'], canon(B, rv['a'], depth + 1, at2), canon(B, rv['b'], depth + 1, at2))
         if k == 'un':
             if rv['op'] == 'PtrMetadata':
-                return ('len', canon(B, rv['a'], depth + 1))     # length of a slice reference
-            return ('un', rv['op'], canon(B, rv['a'], depth + 1))
+                return ('len', canon(B, rv['a'], depth + 1, at2))     # length of a slice reference
+            return ('un', rv['op'], canon(B, rv['a'], depth + 1, at2))
         if k == 'discr':
-            return ('discr', canon_place(B, rv['pl'], depth + 1))
+            return ('discr', canon_place(B, rv['pl'], depth + 1, at2))
         return ('local', l)
     t = node
     g, r = callee_of(t)
     if g is None:
         return ('local', l)
     if _match(TRANSPARENT, t) and t['args']:
-        return canon(B, t['args'][0], depth + 1)
+        return canon(B, t['args'][0], depth + 1, at2)
     if g == 'core::ops::try_trait::Try::branch' and t['args']:
-        return ('try', canon(B, t['args'][0], depth + 1))
+        return ('try', canon(B, t['args'][0], depth + 1, at2))
     if _match(LEN_FNS, t):
-        return ('len', canon(B, t['args'][0], depth + 1))
+        return ('len', canon(B, t['args'][0], depth + 1, at2))
     if _match(REMAINING_FNS, t):
         # remaining() changes as the buffer is consumed: identity includes the call site
-        return ('remaining', canon(B, t['args'][0], depth + 1), bb)
+        return ('remaining', canon(B, t['args'][0], depth + 1, at2), bb)
     if _match(MIN_FNS, t) and len(t['args']) == 2:
-        return ('min', canon(B, t['args'][0], depth + 1), canon(B, t['args'][1], depth + 1))
+        return ('min', canon(B, t['args'][0], depth + 1, at2), canon(B, t['args'][1], depth + 1, at2))
     if _match(MAX_FNS, t) and len(t['args']) == 2:
-        return ('max', canon(B, t['args'][0], depth + 1), canon(B, t['args'][1], depth + 1))
+        return ('max', canon(B, t['args'][0], depth + 1, at2), canon(B, t['args'][1], depth + 1, at2))
     return ('call', r or g, bb)
 
 
@@ -196,7 +199,9 @@ def call_args_desc(B, c):
     return [canon(B, a, 30) for a in t['args']]
 
 
-def canon(B, op, depth=0):
+def canon(B, op, depth=0, at=None):
+    if at is None and depth == 0:
+        at = getattr(B, '_cur_at', None)      # the block whose operands are being looked at (set by the site / fact enumerations)
     if op['k'] == 'c':
         if 'v' in op:
             return ('const', op['v'])
@@ -211,7 +216,7 @@ def canon(B, op, depth=0):
                 rv = d[3]['rv']
                 return ('bin', rv['op'].replace('WithOverflow', ''), canon(B, rv['a'], depth + 1),
                         canon(B, rv['b'], depth + 1))
-        return canon_place(B, pl, depth)
+        return canon_place(B, pl, depth, at)
     return ('unknown',)
 
 
@@ -231,7 +236,13 @@ class Ranges:
         self._facts[bb] = {}          # recursion guard: conditions evaluated without own facts
         facts = {}
         for (src, vals, dst) in dominating_edges(self.B, bb):
-            for c, lo, hi in self._edge_facts(src, vals, dst):
+            prev_at = getattr(self.B, '_cur_at', None)
+            self.B._cur_at = (src, None)
+            try:
+                efs = self._edge_facts(src, vals, dst)
+            finally:
+                self.B._cur_at = prev_at
+            for c, lo, hi in efs:
                 if not self._stable_after(c, dst):
                     continue
                 if c in facts:
@@ -487,6 +498,12 @@ class Ranges:
     # ---- value ranges ------------------------------------------------------
     def range_of(self, op, bb, use_facts=True, _depth=0):
         B = self.B
+        if bb is not None and _depth == 0 and getattr(B, '_cur_at', None) is None:
+            B._cur_at = (bb, None)
+            try:
+                return self.range_of(op, bb, use_facts, _depth)
+            finally:
+                B._cur_at = None
         if op['k'] == 'c':
             if 'v' in op:
                 return (op['v'], op['v'])
